@@ -223,7 +223,7 @@ Fixpoint wf (o : op) : Prop :=
   match o with
   | Scal _ _ => True
   | Diag _ tr _ => kvalid tr
-  | Leaf _ _ => True
+  | Leaf _ cp => (0 <= cp < 16)%Z
   | Sum l => (fix go (l : list (op * bool)) : Prop := match l with [] => True | p :: t => wf (fst p) /\ go t end) l
   | Chain l => (fix go (l : list op) : Prop := match l with [] => True | a :: t => wf a /\ go t end) l
   | Adapter o t => wf o /\ kvalid t
@@ -770,4 +770,653 @@ Proof.
   - split; [apply wf_Sum; assumption|]. intros x i. rewrite apply_Sum. apply S.
 Qed.
 
+(* ---- capability, one boolean per mode index ---- *)
+Definition kadjb (k : Z) : bool := Z.eqb k 0 || Z.eqb k 1.
+Lemma kadjb_spec k : kadjb k = true <-> kadj k.
+Proof.
+  unfold kadjb, kadj. rewrite orb_true_iff, !Z.eqb_eq. tauto.
+Qed.
+
+Fixpoint capk (o : op) (k : Z) : bool :=
+  match o with
+  | Scal _ _ => true
+  | Diag _ _ _ => true
+  | Leaf _ cp => Z.testbit cp k
+  | Sum l => kadjb k && (fix go (l : list (op * bool)) : bool :=
+                           match l with [] => true | p :: t => capk (fst p) k && go t end) l
+  | Chain l => (fix go (l : list op) : bool := match l with [] => true | a :: t => capk a k && go t end) l
+  | Adapter o t => capk o (Z.lxor k t)
+  end.
+
+Definition allcap (l : list op) (k : Z) : bool := forallb (fun a => capk a k) l.
+Definition allcaps (l : list (op * bool)) (k : Z) : bool := forallb (fun p => capk (fst p) k) l.
+
+Lemma capk_Chain l k : capk (Chain l) k = allcap l k.
+Proof. cbn [capk]. unfold allcap. induction l as [|a t IH]; [reflexivity|]. cbn [forallb]. rewrite <- IH. reflexivity. Qed.
+Lemma capk_Sum l k : capk (Sum l) k = kadjb k && allcaps l k.
+Proof.
+  cbn [capk]. unfold allcaps.
+  assert (H : (fix go (l0 : list (op * bool)) : bool :=
+                 match l0 with [] => true | p :: t => capk (fst p) k && go t end) l
+              = forallb (fun p => capk (fst p) k) l).
+  { induction l as [|a t IH]; [reflexivity|]. cbn [forallb]. rewrite <- IH. reflexivity. }
+  rewrite H. reflexivity.
+Qed.
+
+Lemma allcap_app l1 l2 k : allcap (l1 ++ l2) k = allcap l1 k && allcap l2 k.
+Proof. apply forallb_app. Qed.
+Lemma allcaps_app l1 l2 k : allcaps (l1 ++ l2) k = allcaps l1 k && allcaps l2 k.
+Proof. apply forallb_app. Qed.
+
+(* chains: the capability of make(ops) in mode k is exactly the conjunction over ops *)
+Lemma allcap_unpack l k : allcap (unpack_chain A l) k = allcap l k.
+Proof.
+  induction l as [|a t IH]; [reflexivity|].
+  change (unpack_chain A (a :: t)) with ((match a with Chain l' => l' | _ => [a] end) ++ unpack_chain A t).
+  rewrite allcap_app, IH. cbn [allcap forallb]. f_equal.
+  destruct a; cbn [allcap forallb]; rewrite ?andb_true_r; try reflexivity.
+  all: try (rewrite capk_Chain; reflexivity).
+Qed.
+
+Lemma allcap_collect l : forall f0 f r k, collect_chain_scal A l f0 = (f, r) -> allcap r k = allcap l k.
+Proof.
+  induction l as [|a t IH]; intros f0 f r k E; cbn [collect_chain_scal] in E.
+  - inversion E; reflexivity.
+  - destruct a; try (destruct (collect_chain_scal A t f0) as [f' r'] eqn:E'; inversion E; subst;
+                     cbn [allcap forallb]; f_equal; eapply IH; eassumption).
+    destruct (is_real A c).
+    + cbn [allcap forallb capk]. rewrite andb_true_l. eapply IH; eassumption.
+    + destruct (collect_chain_scal A t f0) as [f' r'] eqn:E'; inversion E; subst.
+      cbn [allcap forallb]. f_equal. eapply IH; eassumption.
+Qed.
+
+Lemma allcap_absorb l : forall f r k, absorb_scale A l f = Some r -> allcap r k = allcap l k.
+Proof.
+  induction l as [|a t IH]; intros f r k E; [discriminate|]. cbn [absorb_scale] in E.
+  destruct a; try (destruct (absorb_scale A t f) as [r'|] eqn:E'; [|discriminate]; inversion E; subst;
+                   cbn [allcap forallb]; f_equal; eapply IH; eassumption).
+  inversion E; subst. reflexivity.
+Qed.
+
+Lemma allcap_rev l k : allcap (rev l) k = allcap l k.
+Proof.
+  induction l as [|a t IH]; [reflexivity|]. cbn [rev]. rewrite allcap_app, IH. cbn [allcap forallb].
+  rewrite andb_true_r. apply andb_comm.
+Qed.
+
+Lemma allcap_combine ops : forall acc k, allcap (combine_prod A ops acc) k = allcap acc k && allcap ops k.
+Proof.
+  induction ops as [|o t IH]; intros acc k.
+  - cbn [combine_prod]. rewrite allcap_rev. cbn [allcap forallb]. rewrite andb_true_r. reflexivity.
+  - assert (Gen : allcap (combine_prod A t (o :: acc)) k = allcap acc k && allcap (o :: t) k).
+    { rewrite IH. cbn [allcap forallb]. rewrite !andb_assoc. f_equal. apply andb_comm. }
+    destruct o; cbn [combine_prod]; try exact Gen.
+    destruct acc as [|[] acc']; try exact Gen.
+    rewrite IH. reflexivity.
+Qed.
+
+Lemma allcap_general l k : allcap (chain_general A l) k = allcap l k.
+Proof.
+  unfold chain_general.
+  destruct (collect_chain_scal A (unpack_chain A l) 1) as [fct ops2] eqn:E1.
+  pose proof (allcap_collect _ _ _ _ k E1) as H1. rewrite allcap_unpack in H1.
+  assert (Abs : exists fct' ops3,
+      (if negb (eqb A fct 1)
+       then match absorb_scale A ops2 fct with Some r => (1, r) | None => (fct, ops2) end
+       else (fct, ops2)) = (fct', ops3) /\ allcap ops3 k = allcap l k).
+  { destruct (negb (eqb A fct 1)).
+    - destruct (absorb_scale A ops2 fct) as [r|] eqn:E2.
+      + exists 1, r. split; [reflexivity|]. rewrite (allcap_absorb _ _ _ k E2). exact H1.
+      + exists fct, ops2. split; [reflexivity|exact H1].
+    - exists fct, ops2. split; [reflexivity|exact H1]. }
+  destruct Abs as [fct' [ops3 [E3 H3]]]. rewrite E3. rewrite allcap_combine. cbn [allcap forallb]. cbn [andb].
+  fold (allcap ops3 k).
+  destruct (negb (eqb A fct' 1) || match ops3 with [] => true | _ :: _ => false end).
+  - fold (allcap (ops3 ++ [Scal fct' None]) k). rewrite allcap_app. cbn [allcap forallb capk]. rewrite andb_true_r. exact H3.
+  - exact H3.
+Qed.
+
+Lemma isIdentity_capk a k : isIdentity A a = true -> capk a k = true.
+Proof. destruct a; cbn [isIdentity]; try discriminate. reflexivity. Qed.
+
+Lemma allcap_simplify l k : allcap (chain_simplify A l) k = allcap l k.
+Proof.
+  destruct l as [|a [|b [|c t]]]; cbn [chain_simplify]; try apply allcap_general; try reflexivity.
+  destruct (isIdentity A a) eqn:Ia.
+  - cbn [allcap forallb]. rewrite (isIdentity_capk a k Ia). reflexivity.
+  - destruct (isIdentity A b) eqn:Ib.
+    + cbn [allcap forallb]. rewrite (isIdentity_capk b k Ib). reflexivity.
+    + apply allcap_general.
+Qed.
+
+Lemma capk_mk_chain l k : capk (mk_chain A l) k = allcap l k.
+Proof.
+  rewrite <- allcap_simplify. unfold mk_chain. destruct (chain_simplify A l) as [|o [|o2 t]].
+  - reflexivity.
+  - cbn [allcap forallb]. rewrite andb_true_r. reflexivity.
+  - apply capk_Chain.
+Qed.
+
+Lemma capk_matmul a b k : capk (matmul A a b) k = capk a k && capk b k.
+Proof.
+  unfold matmul. destruct (isIdentity A b) eqn:Ib.
+  - rewrite (isIdentity_capk b k Ib), andb_true_r. reflexivity.
+  - rewrite capk_mk_chain. cbn [allcap forallb]. rewrite andb_true_r. reflexivity.
+Qed.
+
+Lemma capk_scale c o k : capk (scale A c o) k = capk o k.
+Proof. unfold scale. destruct (eqb A c 1); [reflexivity|]. rewrite capk_matmul. reflexivity. Qed.
+
+(* sums: in the forward/adjoint modes make(ops) advertises at least the conjunction *)
+Lemma allcaps_map_sign (l : list (op * bool)) ng k :
+  allcaps (map (fun q => (fst q, xorb ng (snd q))) l) k = allcaps l k.
+Proof. induction l as [|q t IH]; [reflexivity|]. cbn [map allcaps forallb fst]. f_equal. exact IH. Qed.
+
+Lemma allcaps_unpack l k : kadjb k = true -> allcaps (unpack_sum A l) k = allcaps l k.
+Proof.
+  intros Hk. induction l as [|[a ng] t IH]; [reflexivity|].
+  change (unpack_sum A ((a, ng) :: t)) with
+    ((match a with Sum l' => map (fun q => (fst q, xorb ng (snd q))) l' | _ => [(a, ng)] end) ++ unpack_sum A t).
+  rewrite allcaps_app, IH. cbn [allcaps forallb fst]. f_equal.
+  destruct a; cbn [allcaps forallb fst]; rewrite ?andb_true_r; try reflexivity.
+  rewrite capk_Sum, Hk. cbn [andb]. rewrite allcaps_map_sign. reflexivity.
+Qed.
+
+Lemma allcaps_collect l : forall s0 s dts r k, collect_sum_scal A l s0 = (s, dts, r) -> allcaps r k = allcaps l k.
+Proof.
+  induction l as [|[a ng] t IH]; intros s0 s dts r k E; cbn [collect_sum_scal] in E.
+  - inversion E; reflexivity.
+  - destruct a;
+      try (destruct (collect_sum_scal A t s0) as [[s' dts'] r'] eqn:E'; inversion E; subst;
+           cbn [allcaps forallb]; f_equal; eapply IH; eassumption).
+    destruct (collect_sum_scal A t (s0 + sgn A ng c)) as [[s' dts'] r'] eqn:E'. inversion E; subst.
+    cbn [allcaps forallb fst capk]. rewrite andb_true_l. eapply IH; eassumption.
+Qed.
+
+Lemma allcaps_absorb l : forall s dtype r k, absorb_add A l s dtype = Some r -> allcaps r k = allcaps l k.
+Proof.
+  induction l as [|[a ng] t IH]; intros s dtype r k E; [discriminate|]. cbn [absorb_add] in E.
+  destruct a;
+    try (destruct (absorb_add A t s dtype) as [r'|] eqn:E'; [|discriminate]; inversion E; subst;
+         cbn [allcaps forallb]; f_equal; eapply IH; eassumption).
+  destruct (dtag_eqb dt dtype).
+  - inversion E; subst. reflexivity.
+  - destruct (absorb_add A t s dtype) as [r'|] eqn:E'; [|discriminate]; inversion E; subst.
+    cbn [allcaps forallb]. f_equal. eapply IH; eassumption.
+Qed.
+
+Lemma allcaps_merge l : forall d ng dt0 dtcur d' ng' dt' r k,
+  merge_diags A d ng dt0 dtcur l = (d', ng', dt', r) -> allcaps r k = allcaps l k.
+Proof.
+  induction l as [|[a n2] t IH]; intros d ng dt0 dtcur d' ng' dt' r k E; cbn [merge_diags] in E.
+  - inversion E; reflexivity.
+  - destruct a;
+      try (destruct (merge_diags A d ng dt0 dtcur t) as [[[d1 n1] dt1] r1] eqn:E'; inversion E; subst;
+           cbn [allcaps forallb]; f_equal; eapply IH; eassumption).
+    destruct (dtag_eqb dt0 dt).
+    + cbn [allcaps forallb fst capk]. rewrite andb_true_l. eapply IH; eassumption.
+    + destruct (merge_diags A d ng dt0 dtcur t) as [[[d1 n1] dt1] r1] eqn:E'; inversion E; subst.
+      cbn [allcaps forallb]. f_equal. eapply IH; eassumption.
+Qed.
+
+Lemma allcaps_combine fuel : forall l k, allcaps (combine_sum A fuel l) k = allcaps l k.
+Proof.
+  induction fuel as [|f IH]; intros l k; [reflexivity|].
+  destruct l as [|[a ng] t]; cbn [combine_sum]; [reflexivity|].
+  assert (Keep : allcaps ((a, ng) :: combine_sum A f t) k = allcaps ((a, ng) :: t) k).
+  { cbn [allcaps forallb]. f_equal. apply IH. }
+  destruct a; try exact Keep.
+  destruct (existsb _ t); [|exact Keep].
+  destruct (merge_diags A (actual_diag A d tr) ng dt dt t) as [[[d' ng'] dt'] r] eqn:E.
+  cbn [allcaps forallb fst capk]. rewrite !andb_true_l. fold (allcaps (combine_sum A f r) k). fold (allcaps t k).
+  rewrite IH. eapply allcaps_merge; eassumption.
+Qed.
+
+Lemma allcaps_simplify l k : kadjb k = true -> allcaps (sum_simplify A l) k = allcaps l k.
+Proof.
+  intros Hk. unfold sum_simplify.
+  destruct (collect_sum_scal A (unpack_sum A l) 0) as [[s dts] l2] eqn:E1.
+  pose proof (allcaps_collect _ _ _ _ _ k E1) as H1. rewrite (allcaps_unpack l k Hk) in H1.
+  assert (Abs : exists s' l3,
+    (if negb (eqb A s 0)
+     then match absorb_add A l2 s (sum_dtype dts) with Some r => (0, r) | None => (s, l2) end
+     else (s, l2)) = (s', l3) /\ allcaps l3 k = allcaps l k).
+  { destruct (negb (eqb A s 0)).
+    - destruct (absorb_add A l2 s (sum_dtype dts)) as [r|] eqn:E2.
+      + exists 0, r. split; [reflexivity|]. rewrite (allcaps_absorb _ _ _ _ k E2). exact H1.
+      + exists s, l2. split; [reflexivity|exact H1].
+    - exists s, l2. split; [reflexivity|exact H1]. }
+  destruct Abs as [s' [l3 [E3 H3]]]. rewrite E3. rewrite allcaps_combine.
+  destruct (negb (eqb A s' 0) || match l3 with [] => true | _ :: _ => false end).
+  - rewrite allcaps_app. cbn [allcaps forallb fst capk]. rewrite andb_true_r. exact H3.
+  - exact H3.
+Qed.
+
+Lemma capk_mk_sum l k : kadjb k = true -> capk (mk_sum A l) k = allcaps l k.
+Proof.
+  intros Hk. rewrite <- (allcaps_simplify l k Hk). unfold mk_sum.
+  destruct (sum_simplify A l) as [|[o ng] [|p t]].
+  - rewrite capk_Sum, Hk. reflexivity.
+  - cbn [allcaps forallb fst]. rewrite andb_true_r. destruct ng; [apply capk_scale|reflexivity].
+  - rewrite capk_Sum, Hk. reflexivity.
+Qed.
+
+(* ---- _flip_modes ---- *)
+Lemma flip_0 o : flip A 0 o = o.
+Proof. destruct o; reflexivity. Qed.
+
+Definition flipc (t : Z) (c : T) : T :=
+  let c1 := if has_adj t then cj c else c in if has_inv t then div A 1 c1 else c1.
+
+Lemma scal_fct_flip t c k : kvalid t -> kvalid k -> scal_fct (flipc t c) k = scal_fct c (Z.lxor k t).
+Proof.
+  intros Ht Hk. unfold flipc, scal_fct.
+  destruct Ht as [<-|[<-|[<-|[<-|[]]]]]; destruct Hk as [<-|[<-|[<-|[<-|[]]]]]; cbn;
+    rewrite ?div_def, ?one_mul; rewrite ?(conj_inv A L), ?(conj_invol A L), ?(inv_inv A L); reflexivity.
+Qed.
+
+Lemma comp_fwd_rev l m x : comp_fwd (rev l) m x = comp_bwd l m x.
+Proof.
+  revert x; induction l as [|a t IH]; intros x; cbn [rev comp_bwd]; [reflexivity|].
+  rewrite comp_fwd_app. cbn [comp_fwd]. apply IH.
+Qed.
+Lemma comp_bwd_rev l m x : comp_bwd (rev l) m x = comp_fwd l m x.
+Proof.
+  induction l as [|a t IH]; cbn [rev comp_fwd]; [reflexivity|].
+  rewrite comp_bwd_app. cbn [comp_bwd]. rewrite IH. reflexivity.
+Qed.
+
+Lemma backwards_xor t k : kvalid t -> kvalid k ->
+  backwards (mode_of (Z.lxor k t)) =
+  if Z.eqb t 0 || Z.eqb t 3 then backwards (mode_of k) else negb (backwards (mode_of k)).
+Proof.
+  intros Ht Hk. destruct Ht as [<-|[<-|[<-|[<-|[]]]]]; destruct Hk as [<-|[<-|[<-|[<-|[]]]]]; reflexivity.
+Qed.
+
+Section MapEquiv.
+Variable f : op -> op.
+Variables m m' : Z.
+Lemma map_comp_fwd l : Forall (fun a => forall x, peq (apply (f a) m x) (apply a m' x)) l ->
+  forall x, peq (comp_fwd (map f l) m x) (comp_fwd l m' x).
+Proof.
+  induction 1 as [|a t Ha Ht IH]; intros x i; cbn [map comp_fwd]; [reflexivity|].
+  rewrite <- Ha. apply apply_ext. apply IH.
+Qed.
+Lemma map_comp_bwd l : Forall (fun a => forall x, peq (apply (f a) m x) (apply a m' x)) l ->
+  forall x, peq (comp_bwd (map f l) m x) (comp_bwd l m' x).
+Proof.
+  induction 1 as [|a t Ha Ht IH]; intros x i; cbn [map comp_bwd]; [reflexivity|].
+  rewrite IH. apply comp_bwd_ext; [apply all_ext|]. apply Ha.
+Qed.
+End MapEquiv.
+
+Definition flip_ok (o : op) : Prop :=
+  wf o -> forall t k, kvalid t -> kvalid k ->
+    wf (flip A t o) /\
+    (forall x, peq (apply (flip A t o) (mode_of k) x) (apply o (mode_of (Z.lxor k t)) x)) /\
+    capk (flip A t o) k = capk o (Z.lxor k t).
+
+Lemma lxor_valid_assoc k t tr : Z.lxor k (Z.lxor t tr) = Z.lxor (Z.lxor k t) tr.
+Proof. symmetry. apply Z.lxor_assoc. Qed.
+
+Lemma flip_sound : forall o, flip_ok o.
+Proof.
+  apply op_ind'; unfold flip_ok.
+  - (* Scal *)
+    intros c dt _ t k Ht Hk. destruct (Z.eqb t 0) eqn:E0.
+    { apply Z.eqb_eq in E0. subst t. rewrite flip_0, Z.lxor_0_r. repeat split; try assumption; try (intros x i; reflexivity). }
+    cbn [flip]. rewrite E0. fold (flipc t c). repeat split. intros x i.
+    rewrite !apply_Scal by (try apply kvalid_xor; assumption). rewrite scal_fct_flip by assumption. reflexivity.
+  - (* Diag *)
+    intros d tr dt Hw t k Ht Hk. cbn [wf] in Hw. destruct (Z.eqb t 0) eqn:E0.
+    { apply Z.eqb_eq in E0. subst t. rewrite flip_0, Z.lxor_0_r. repeat split; try assumption; try (intros x i; reflexivity). }
+    cbn [flip]. rewrite E0. split; [cbn [wf]; apply kvalid_xor; assumption|]. split; [|reflexivity].
+    intros x i. cbn [Model.apply]. unfold apply_diag.
+    rewrite !ilog_mode by (try apply kvalid_xor; assumption).
+    replace (Z.lxor k (Z.lxor tr t)) with (Z.lxor (Z.lxor k t) tr); [reflexivity|].
+    rewrite (Z.lxor_comm tr t). apply Z.lxor_assoc.
+  - (* Leaf *)
+    intros l cp Hw t k Ht Hk. destruct (Z.eqb t 0) eqn:E0.
+    { apply Z.eqb_eq in E0. subst t. rewrite flip_0, Z.lxor_0_r.
+      split; [exact Hw|]. split; [intros x i; reflexivity|reflexivity]. }
+    cbn [flip]. rewrite E0. split; [split; assumption|]. split; [|reflexivity].
+    intros x i. cbn [Model.apply]. rewrite (ilog_mode k Hk), (modeTable_xor t k Ht Hk). reflexivity.
+  - (* Sum *)
+    intros l _ Hw t k Ht Hk. destruct (Z.eqb t 0) eqn:E0.
+    { apply Z.eqb_eq in E0. subst t. rewrite flip_0, Z.lxor_0_r. repeat split; try assumption; try (intros x i; reflexivity). }
+    cbn [flip]. rewrite E0. split; [split; assumption|]. split; [|reflexivity].
+    intros x i. change (apply (Adapter (Sum l) t) (mode_of k) x i)
+      with (apply (Sum l) (modeTable t (ilog (mode_of k))) x i).
+    rewrite (ilog_mode k Hk), (modeTable_xor t k Ht Hk). reflexivity.
+  - (* Chain *)
+    intros l IHl Hw t k Ht Hk. destruct (Z.eqb t 0) eqn:E0.
+    { apply Z.eqb_eq in E0. subst t. rewrite flip_0, Z.lxor_0_r. repeat split; try assumption; try (intros x i; reflexivity). }
+    apply wf_Chain in Hw.
+    assert (El : Forall (fun a => wf (flip A t a) /\
+                   (forall x, peq (apply (flip A t a) (mode_of k) x) (apply a (mode_of (Z.lxor k t)) x)) /\
+                   capk (flip A t a) k = capk a (Z.lxor k t)) l).
+    { clear -IHl Hw Ht Hk. induction IHl as [|a r Ha Hr IH]; [constructor|]. inversion Hw; subst.
+      constructor; [apply Ha; assumption|apply IH; assumption]. }
+    assert (Wm : Forall wf (map (flip A t) l)).
+    { clear -El. induction El as [|a r [Ha _] Hr IH]; cbn [map]; constructor; assumption. }
+    assert (Em : Forall (fun a => forall x, peq (apply (flip A t a) (mode_of k) x) (apply a (mode_of (Z.lxor k t)) x)) l).
+    { clear -El. induction El as [|a r [_ [Ha _]] Hr IH]; constructor; assumption. }
+    assert (Cm : allcap (map (flip A t) l) k = allcap l (Z.lxor k t)).
+    { clear -El. induction El as [|a r [_ [_ Ha]] Hr IH]; [reflexivity|]. cbn [map allcap forallb]. rewrite Ha. f_equal. exact IH. }
+    pose proof (backwards_xor t k Ht Hk) as Bx. rewrite E0 in Bx. cbn [orb] in Bx.
+    cbn [flip]. rewrite E0. destruct (Z.eqb t 3) eqn:E3.
+    + destruct (mk_chain_sound k (map (flip A t) l) Hk Wm) as [W S].
+      split; [assumption|]. split.
+      * intros x i. rewrite S. rewrite apply_Chain. rewrite Bx. unfold comp.
+        destruct (backwards (mode_of k)).
+        -- apply map_comp_bwd. exact Em.
+        -- apply map_comp_fwd. exact Em.
+      * rewrite capk_mk_chain, capk_Chain. exact Cm.
+    + destruct (mk_chain_sound k (rev (map (flip A t) l)) Hk (Forall_rev Wm)) as [W S].
+      split; [assumption|]. split.
+      * intros x i. rewrite S. rewrite apply_Chain. rewrite Bx. unfold comp.
+        destruct (backwards (mode_of k)); cbn [negb].
+        -- rewrite comp_bwd_rev. apply map_comp_fwd. exact Em.
+        -- rewrite comp_fwd_rev. apply map_comp_bwd. exact Em.
+      * rewrite capk_mk_chain, capk_Chain, allcap_rev. exact Cm.
+  - (* Adapter *)
+    intros o tr IH Hw t k Ht Hk. cbn [wf] in Hw. destruct Hw as [Hwo Htr]. destruct (Z.eqb t 0) eqn:E0.
+    { apply Z.eqb_eq in E0. subst t. rewrite flip_0, Z.lxor_0_r. repeat split; try assumption; try (intros x i; reflexivity). }
+    cbn [flip]. rewrite E0.
+    assert (Hm : forall x i, apply (Adapter o tr) (mode_of (Z.lxor k t)) x i = apply o (mode_of (Z.lxor (Z.lxor k t) tr)) x i).
+    { intros x i. cbn [Model.apply]. rewrite ilog_mode, modeTable_xor by (try apply kvalid_xor; assumption). reflexivity. }
+    destruct (Z.eqb (Z.lxor t tr) 0) eqn:En.
+    + apply Z.eqb_eq in En. apply Z.lxor_eq in En. subst tr.
+      assert (Z.lxor (Z.lxor k t) t = k) as Ek by (rewrite Z.lxor_assoc, Z.lxor_nilpotent, Z.lxor_0_r; reflexivity).
+      split; [assumption|]. split.
+      * intros x i. rewrite Hm, Ek. reflexivity.
+      * cbn [capk]. rewrite Ek. reflexivity.
+    + split; [split; [assumption|apply kvalid_xor; assumption]|]. split.
+      * intros x i. rewrite Hm. cbn [Model.apply].
+        rewrite ilog_mode, modeTable_xor by (try apply kvalid_xor; assumption).
+        rewrite lxor_valid_assoc. reflexivity.
+      * cbn [capk]. rewrite lxor_valid_assoc. reflexivity.
+Qed.
+
+(* ---- the `adjoint` property (SumOperator overrides it) ---- *)
+Definition adjoint_ok (o : op) : Prop :=
+  wf o -> forall k, kvalid k -> capk o (Z.lxor k 1) = true ->
+    wf (adjoint_prop A o) /\
+    (forall x, peq (apply (adjoint_prop A o) (mode_of k) x) (apply o (mode_of (Z.lxor k 1)) x)) /\
+    capk (adjoint_prop A o) k = true.
+
+Lemma kvalid_1 : kvalid 1%Z. Proof. right; left; reflexivity. Qed.
+Lemma kvalid_2 : kvalid 2%Z. Proof. right; right; left; reflexivity. Qed.
+
+Lemma adjoint_by_flip o : adjoint_prop A o = flip A 1 o -> adjoint_ok o.
+Proof.
+  intros E Hw k Hk Hc. rewrite E. destruct (flip_sound o Hw 1%Z k kvalid_1 Hk) as [W [S C]].
+  split; [assumption|]. split; [assumption|]. rewrite C. exact Hc.
+Qed.
+
+Lemma kadjb_xor1 k : kvalid k -> kadjb (Z.lxor k 1) = kadjb k.
+Proof. intros Hk. destruct Hk as [<-|[<-|[<-|[<-|[]]]]]; reflexivity. Qed.
+
+Lemma adjoint_sound : forall o, adjoint_ok o.
+Proof.
+  apply op_ind'.
+  - intros. apply adjoint_by_flip. reflexivity.
+  - intros. apply adjoint_by_flip. reflexivity.
+  - intros. apply adjoint_by_flip. reflexivity.
+  - intros l IHl Hw k Hk Hc. apply wf_Sum in Hw. rewrite capk_Sum in Hc.
+    apply andb_true_iff in Hc as [Hc1 Hc2]. rewrite (kadjb_xor1 k Hk) in Hc1.
+    pose proof (proj1 (kadjb_spec k) Hc1) as Hka.
+    set (l' := map (fun p : op * bool => match p with (a, ng) => (adjoint_prop A a, ng) end) l).
+    assert (El : Forall (fun p => wf (adjoint_prop A (fst p)) /\
+                    (forall x, peq (apply (adjoint_prop A (fst p)) (mode_of k) x) (apply (fst p) (mode_of (Z.lxor k 1)) x)) /\
+                    capk (adjoint_prop A (fst p)) k = true) l).
+    { clear -IHl Hw Hc2 Hk. unfold allcaps in Hc2. induction IHl as [|p r Hp Hr IH]; [constructor|].
+      inversion Hw; subst. cbn [forallb] in Hc2. apply andb_true_iff in Hc2 as [C1 C2].
+      constructor; [apply Hp; assumption|apply IH; assumption]. }
+    assert (Wl : wfl l').
+    { unfold l'. clear -El. induction El as [|[a ng] r [Ha _] Hr IH]; cbn [map]; constructor; assumption. }
+    assert (Sl : forall x i, ssem l' k x i = ssem l (Z.lxor k 1) x i).
+    { intros x i. unfold l'. clear -El. induction El as [|[a ng] r [_ [Ha _]] Hr IH]; [reflexivity|].
+      cbn [map sum_sem]. cbn [fst] in Ha. rewrite Ha, IH. reflexivity. }
+    assert (Cl : allcaps l' k = true).
+    { unfold l'. clear -El. induction El as [|[a ng] r [_ [_ Ha]] Hr IH]; [reflexivity|].
+      cbn [map allcaps forallb fst]. cbn [fst] in Ha. rewrite Ha. exact IH. }
+    destruct (mk_sum_sound k l' Hka Wl) as [W S].
+    change (adjoint_prop A (Sum l)) with (mk_sum A l').
+    split; [assumption|]. split.
+    + intros x i. rewrite S, Sl, apply_Sum. reflexivity.
+    + rewrite (capk_mk_sum l' k Hc1). exact Cl.
+  - intros. apply adjoint_by_flip. reflexivity.
+  - intros. apply adjoint_by_flip. reflexivity.
+Qed.
+
+(* ---- expressions ---- *)
+Notation expr := (expr A).
+
+(* The matrix meaning of an expression in mode index k (0 TIMES, 1 ADJOINT, 2 INVERSE, 3 ADJOINT
+   INVERSE), compositional: a product is applied right-to-left in the forward-type modes and
+   left-to-right in the backward-type ones, a sum is the sum of its parts, adjoint and inverse
+   remap the mode, a scalar multiplies by c, conj c, 1/c, 1/conj c. *)
+Fixpoint sem (e : expr) (k : Z) (x : vec) : vec :=
+  match e with
+  | EPrim o => apply o (mode_of k) x
+  | EAdd a b => fun i => sem a k x i + sem b k x i
+  | ESub a b => fun i => sem a k x i - sem b k x i
+  | EComp a b => if backwards (mode_of k) then sem b k (sem a k x) else sem a k (sem b k x)
+  | EScale c a => fun i => sem a k x i * scal_fct c k
+  | ENeg a => fun i => - sem a k x i
+  | EAdj a => sem a (Z.lxor k 1) x
+  | EInv a => sem a (Z.lxor k 2) x
+  end.
+
+(* The advertised-mode rule of the property: a mode is advertised when all constituents provide
+   the modes it requires; sums advertise only forward and adjoint application. *)
+Fixpoint advk (e : expr) (k : Z) : bool :=
+  match e with
+  | EPrim o => capk o k
+  | EAdd a b | ESub a b => kadjb k && advk a k && advk b k
+  | EComp a b => advk a k && advk b k
+  | EScale _ a | ENeg a => advk a k
+  | EAdj a => advk a (Z.lxor k 1)
+  | EInv a => advk a (Z.lxor k 2)
+  end.
+
+Fixpoint wfe (e : expr) : Prop :=
+  match e with
+  | EPrim o => wf o
+  | EAdd a b | ESub a b | EComp a b => wfe a /\ wfe b
+  | EScale _ a | ENeg a | EAdj a | EInv a => wfe a
+  end.
+
+Definition m1 : T := neg A (one A).
+Lemma inv_neg_one : inv m1 = m1.
+Proof.
+  assert (N : m1 <> 0).
+  { intros H. apply (F_1_neq_0 (Fth A L)). transitivity (neg A m1); [unfold m1; ring|]. rewrite H. ring. }
+  transitivity (inv m1 * (m1 * m1)); [unfold m1; ring|].
+  rewrite (Rmul_assoc Rth). rewrite (Finv_l (Fth A L) _ N). ring.
+Qed.
+
+Lemma negate_sound_all k o : kvalid k -> wf o ->
+  wf (negate A o) /\ forall x i, apply (negate A o) (mode_of k) x i = - apply o (mode_of k) x i.
+Proof.
+  intros Hk Ho. destruct (scale_sound k (neg A (one A)) o Hk Ho) as [W S]. split; [exact W|].
+  intros x i. unfold negate. rewrite S. unfold scal_fct.
+  destruct Hk as [<-|[<-|[<-|[<-|[]]]]]; cbn;
+    rewrite ?(conj_neg A L), ?(conj_one A L); fold m1; rewrite ?inv_neg_one; unfold m1; ring.
+Qed.
+
+Lemma adjoint_wf : forall o, wf o -> wf (adjoint_prop A o).
+Proof.
+  apply (op_ind' (fun o => wf o -> wf (adjoint_prop A o))).
+  - intros c dt H. apply (flip_sound _ H 1%Z 0%Z kvalid_1 kvalid_0).
+  - intros d tr dt H. apply (flip_sound _ H 1%Z 0%Z kvalid_1 kvalid_0).
+  - intros l cp H. apply (flip_sound _ H 1%Z 0%Z kvalid_1 kvalid_0).
+  - intros l Hl Hwl. apply wf_Sum in Hwl.
+    change (adjoint_prop A (Sum l)) with
+      (mk_sum A (map (fun p : op * bool => match p with (a1, n1) => (adjoint_prop A a1, n1) end) l)).
+    apply (mk_sum_sound 0%Z _ (or_introl eq_refl)).
+    induction Hl as [|[a1 n1] r1 H1 Hr1 IH1]; cbn [map]; [constructor|].
+    inversion Hwl; subst. constructor; [cbn [fst] in *; apply H1; assumption|apply IH1; assumption].
+  - intros l Hl H. apply (flip_sound _ H 1%Z 0%Z kvalid_1 kvalid_0).
+  - intros o t IH H. apply (flip_sound _ H 1%Z 0%Z kvalid_1 kvalid_0).
+Qed.
+
+Definition build_ok (e : expr) : Prop :=
+  wfe e ->
+  wf (build A e) /\
+  forall k, kvalid k -> advk e k = true ->
+    capk (build A e) k = true /\ forall x, peq (apply (build A e) (mode_of k) x) (sem e k x).
+
+Lemma build_sum_case a b ng :
+  build_ok a -> build_ok b -> wfe a -> wfe b ->
+  wf (mk_sum A [(build A a, false); (build A b, ng)]) /\
+  forall k, kvalid k -> kadjb k && advk a k && advk b k = true ->
+    capk (mk_sum A [(build A a, false); (build A b, ng)]) k = true /\
+    forall x i, apply (mk_sum A [(build A a, false); (build A b, ng)]) (mode_of k) x i
+                = sem a k x i + sg ng (sem b k x i).
+Proof.
+  intros IHa IHb Wa Wb. destruct (IHa Wa) as [Wba Sa]. destruct (IHb Wb) as [Wbb Sb].
+  assert (Wl : wfl [(build A a, false); (build A b, ng)]) by (repeat constructor; assumption).
+  split.
+  - (* well-formedness does not depend on the mode: use k = 0 *)
+    apply (mk_sum_sound 0%Z _ (or_introl eq_refl) Wl).
+  - intros k Hk Hadv. apply andb_true_iff in Hadv as [Hadv Hb']. apply andb_true_iff in Hadv as [Hkk Ha'].
+    pose proof (proj1 (kadjb_spec k) Hkk) as Hka.
+    destruct (Sa k Hk Ha') as [Ca Ea]. destruct (Sb k Hk Hb') as [Cb Eb].
+    destruct (mk_sum_sound k _ Hka Wl) as [_ S]. split.
+    + rewrite (capk_mk_sum _ k Hkk). cbn [allcaps forallb fst]. rewrite Ca, Cb. reflexivity.
+    + intros x i. rewrite S. cbn [sum_sem sg]. rewrite Ea, Eb. ring.
+Qed.
+
+Lemma build_sound : forall e, build_ok e.
+Proof.
+  induction e as [o|a IHa b IHb|a IHa b IHb|a IHa b IHb|c a IHa|a IHa|a IHa|a IHa]; intros Hw; cbn [wfe] in Hw.
+  - (* EPrim *) cbn [build]. split; [assumption|]. intros k Hk Hc. split; [exact Hc|]. intros x i. reflexivity.
+  - (* EAdd *) destruct Hw as [Wa Wb]. destruct (build_sum_case a b false IHa IHb Wa Wb) as [W S].
+    cbn [build]. split; [assumption|]. intros k Hk Hadv. destruct (S k Hk Hadv) as [C E]. split; [assumption|].
+    intros x i. rewrite E. cbn [sem sg]. reflexivity.
+  - (* ESub *) destruct Hw as [Wa Wb]. destruct (build_sum_case a b true IHa IHb Wa Wb) as [W S].
+    cbn [build]. split; [assumption|]. intros k Hk Hadv. destruct (S k Hk Hadv) as [C E]. split; [assumption|].
+    intros x i. rewrite E. cbn [sem sg]. ring.
+  - (* EComp *) destruct Hw as [Wa Wb]. destruct (IHa Wa) as [Wba Sa]. destruct (IHb Wb) as [Wbb Sb].
+    cbn [build]. split; [apply (matmul_sound 0%Z _ _ kvalid_0 Wba Wbb)|].
+    intros k Hk Hadv. cbn [advk] in Hadv. apply andb_true_iff in Hadv as [Ha' Hb'].
+    destruct (Sa k Hk Ha') as [Ca Ea]. destruct (Sb k Hk Hb') as [Cb Eb].
+    destruct (matmul_sound k _ _ Hk Wba Wbb) as [_ S]. split.
+    + rewrite capk_matmul, Ca, Cb. reflexivity.
+    + intros x i. rewrite S, (comp_cons _ _ k x i), !comp_single. cbn [sem].
+      destruct (backwards (mode_of k)).
+      * rewrite <- Eb. apply apply_ext. apply Ea.
+      * rewrite <- Ea. apply apply_ext. apply Eb.
+  - (* EScale *) destruct (IHa Hw) as [Wba Sa]. cbn [build].
+    split; [apply (scale_sound 0%Z c _ kvalid_0 Wba)|].
+    intros k Hk Hadv. cbn [advk] in Hadv. destruct (Sa k Hk Hadv) as [Ca Ea].
+    destruct (scale_sound k c _ Hk Wba) as [_ S]. split; [rewrite capk_scale; exact Ca|].
+    intros x i. rewrite S, Ea. reflexivity.
+  - (* ENeg *) destruct (IHa Hw) as [Wba Sa]. cbn [build].
+    split; [apply (negate_sound_all 0%Z _ kvalid_0 Wba)|].
+    intros k Hk Hadv. cbn [advk] in Hadv. destruct (Sa k Hk Hadv) as [Ca Ea].
+    destruct (negate_sound_all k _ Hk Wba) as [_ S]. split; [unfold negate; rewrite capk_scale; exact Ca|].
+    intros x i. rewrite S, Ea. reflexivity.
+  - (* EAdj *) destruct (IHa Hw) as [Wba Sa]. cbn [build].
+    pose proof (adjoint_wf _ Wba) as W.
+    split; [exact W|].
+    intros k Hk Hadv. cbn [advk] in Hadv.
+    destruct (Sa (Z.lxor k 1) (kvalid_xor _ _ Hk kvalid_1) Hadv) as [Ca Ea].
+    destruct (adjoint_sound (build A a) Wba k Hk Ca) as [_ [S C]]. split; [exact C|].
+    intros x i. rewrite S, Ea. reflexivity.
+  - (* EInv *) destruct (IHa Hw) as [Wba Sa]. cbn [build]. unfold inverse_prop.
+    change t_INVERSE_BIT with 2%Z.
+    split; [apply (flip_sound _ Wba 2%Z 0%Z kvalid_2 kvalid_0)|].
+    intros k Hk Hadv. cbn [advk] in Hadv.
+    destruct (Sa (Z.lxor k 2) (kvalid_xor _ _ Hk kvalid_2) Hadv) as [Ca Ea].
+    destruct (flip_sound _ Wba 2%Z k kvalid_2 Hk) as [_ [S C]]. split; [rewrite C; exact Ca|].
+    intros x i. rewrite S, Ea. reflexivity.
+Qed.
+
+(* ---- capk is the bit of the real capability ---- *)
+Definition cap_ok (o : op) : Prop :=
+  wf o -> (0 <= cap A o < 16)%Z /\ forall k, kvalid k -> Z.testbit (cap A o) k = capk o k.
+
+Lemma capk_spec : forall o, cap_ok o.
+Proof.
+  apply op_ind'; unfold cap_ok.
+  - intros c dt _. cbn [cap capk]. split; [vm_compute; split; [discriminate|reflexivity]|]. intros k Hk. apply testbit_all_ops. exact Hk.
+  - intros d tr dt _. cbn [cap capk]. split; [vm_compute; split; [discriminate|reflexivity]|]. intros k Hk. apply testbit_all_ops. exact Hk.
+  - intros l cp Hw. cbn [cap capk]. split; [exact Hw|]. intros; reflexivity.
+  - intros l IHl Hw. apply wf_Sum in Hw.
+    cbn [cap].
+    assert (G : (0 <= (fix go (l0 : list (op * bool)) : Z :=
+                  match l0 with [] => Z.lor t_TIMES t_ADJOINT_TIMES | (a, _) :: t => Z.land (go t) (cap A a) end) l < 16)%Z /\
+                forall k, kvalid k ->
+                  Z.testbit ((fix go (l0 : list (op * bool)) : Z :=
+                    match l0 with [] => Z.lor t_TIMES t_ADJOINT_TIMES | (a, _) :: t => Z.land (go t) (cap A a) end) l) k
+                  = kadjb k && allcaps l k).
+    { induction IHl as [|[a ng] r Ha Hr IH].
+      - split; [vm_compute; split; [discriminate|reflexivity]|]. intros k Hk. cbn [allcaps forallb]. rewrite andb_true_r.
+        apply testbit_fwd_adj. exact Hk.
+      - inversion Hw; subst. destruct (IH H2) as [R B]. cbn [fst] in *. destruct (Ha H1) as [Ra Ba]. split.
+        + apply land_range; assumption.
+        + intros k Hk. rewrite Z.land_spec, (B k Hk), (Ba k Hk). cbn [allcaps forallb fst].
+          fold (allcaps r k). destruct (kadjb k), (capk a k), (allcaps r k); reflexivity. }
+    destruct G as [R B]. split; [exact R|]. intros k Hk. rewrite capk_Sum. apply B. exact Hk.
+  - intros l IHl Hw. apply wf_Chain in Hw. cbn [cap].
+    assert (G : (0 <= (fix go (l0 : list op) : Z :=
+                  match l0 with [] => t_all_ops | a :: t => Z.land (go t) (cap A a) end) l < 16)%Z /\
+                forall k, kvalid k ->
+                  Z.testbit ((fix go (l0 : list op) : Z :=
+                    match l0 with [] => t_all_ops | a :: t => Z.land (go t) (cap A a) end) l) k = allcap l k).
+    { induction IHl as [|a r Ha Hr IH].
+      - split; [vm_compute; split; [discriminate|reflexivity]|]. intros k Hk. apply testbit_all_ops. exact Hk.
+      - inversion Hw; subst. destruct (IH H2) as [R B]. destruct (Ha H1) as [Ra Ba]. split.
+        + apply land_range; assumption.
+        + intros k Hk. rewrite Z.land_spec, (B k Hk), (Ba k Hk). cbn [allcap forallb]. apply andb_comm. }
+    destruct G as [R B]. split; [exact R|]. intros k Hk. rewrite capk_Chain. apply B. exact Hk.
+  - intros o t IH [Hwo Ht]. destruct (IH Hwo) as [R B]. cbn [cap capk]. split.
+    + apply capTable_range; assumption.
+    + intros k Hk. rewrite (tables_cap t (cap A o) k Ht R Hk). apply B. apply kvalid_xor; assumption.
+Qed.
+
+(* ---- the statements exported to Props.v ---- *)
+Lemma build_sound_full e : wfe e -> forall k, kvalid k -> advk e k = true ->
+  Z.testbit (cap A (build A e)) k = true /\
+  forall x i, apply (build A e) (mode_of k) x i = sem e k x i.
+Proof.
+  intros Hw k Hk Ha. destruct (build_sound e Hw) as [W S]. destruct (S k Hk Ha) as [C E].
+  split; [|exact E]. destruct (capk_spec _ W) as [_ B]. rewrite (B k Hk). exact C.
+Qed.
+
+Lemma flip_sound_full o t : wf o -> kvalid t ->
+  wf (flip A t o) /\
+  forall k, kvalid k ->
+    Z.testbit (cap A (flip A t o)) k = Z.testbit (cap A o) (Z.lxor k t) /\
+    forall x i, apply (flip A t o) (mode_of k) x i = apply o (mode_of (Z.lxor k t)) x i.
+Proof.
+  intros Hw Ht. destruct (flip_sound o Hw t 0%Z Ht kvalid_0) as [W _]. split; [exact W|].
+  intros k Hk. destruct (flip_sound o Hw t k Ht Hk) as [_ [S C]].
+  destruct (capk_spec _ W) as [_ B1]. destruct (capk_spec _ Hw) as [_ B2].
+  split; [|exact S]. rewrite (B1 k Hk), (B2 _ (kvalid_xor _ _ Hk Ht)). exact C.
+Qed.
+
+Lemma mk_sum_sound_full l : wfl l ->
+  wf (mk_sum A l) /\ forall k, kadj k -> forall x i, apply (mk_sum A l) (mode_of k) x i = sum_sem l (mode_of k) x i.
+Proof.
+  intros Hw. split; [apply (mk_sum_sound 0%Z l (or_introl eq_refl) Hw)|].
+  intros k Hk. apply (mk_sum_sound k l Hk Hw).
+Qed.
+
+Lemma mk_chain_sound_full l : Forall wf l ->
+  wf (mk_chain A l) /\ forall k, kvalid k ->
+    Z.testbit (cap A (mk_chain A l)) k = forallb (fun a => Z.testbit (cap A a) k) l /\
+    forall x i, apply (mk_chain A l) (mode_of k) x i = comp l k x i.
+Proof.
+  intros Hw. destruct (mk_chain_sound 0%Z l kvalid_0 Hw) as [W _]. split; [exact W|].
+  intros k Hk. destruct (mk_chain_sound k l Hk Hw) as [_ S]. split; [|exact S].
+  destruct (capk_spec _ W) as [_ B]. rewrite (B k Hk), capk_mk_chain. unfold allcap.
+  clear -Hw Hk. induction Hw as [|a t Ha Ht IH]; [reflexivity|]. cbn [forallb]. rewrite IH.
+  destruct (capk_spec _ Ha) as [_ Ba]. rewrite (Ba k Hk). reflexivity.
+Qed.
+
 End Alg.
+
